@@ -116,7 +116,7 @@ func c16BinaryMonitor(a Args, res *Result, cases []c16Case, t2g string, base str
 			defer wg.Done()
 			dir := filepath.Join(base, fmt.Sprintf("bin%d", k))
 			for i := range ch {
-				if cases[i].Class == "hang" { // reported by the parser monitor already; the binary would only hang again
+				if cases[i].Class == "hang" || cases[i].Files != nil { // reported by the parser monitor already; the binary would only hang again
 					rs[i] = r{"skipped", ""}
 					continue
 				}
